@@ -34,7 +34,12 @@ RULE = (
     "square: violable) under --cache-solver, plus the same two-test situation at the solver layer with the AST-id reuse made explicit "
     "(real FunctionContext/SolvingContext/solve_end_to_end of one ContractContext), (--solver-threads 1 and default) in every order, twice, against each test alone; (2) the same contracts with halmos.utils.uid (and every module-level alias) replaced by another "
     "injective stream and by a constant; (3) ~300 branching programs from vlib/proggen.py run by the real SEVM with every "
-    "worklist state deep-fingerprinted at push and at pop. A case is distinct by (contract seed, configuration) / program."
+    "worklist state deep-fingerprinted at push and at pop; (4) config_isolation: up to 200 (thorough 1000) rounds of what run_tests does per test -- layer a "
+    "function_annotation Config (with_overrides / real with_devdoc / with_natspec) with fresh --loop/--depth/--width values, read every option "
+    "through attribute access, drop it, gc -- until addresses have been reused >= 25 times; every read must equal value_with_source and the "
+    "overrides; (5) annotation_isolation: one contract with four loop tests each annotated `@custom:halmos --loop N` (contract natspec --loop 4), "
+    "through the real run_contract in 5 (thorough 24) orders, twice each, against every test alone, with the loop bound each SEVM is built "
+    "with observed. A case is distinct by (contract seed, configuration) / program."
 )
 TRUSTED = [
     "the in-place-mutation table of Model/Heap.lean is hand-made from reading sevm.py (validated only dynamically by check (3))",
@@ -1004,6 +1009,157 @@ def check_siblings(ctx, n):
 # ------------------------------------------------------------------------------------------------ (4) per-process warning de-duplication
 
 
+def check_config_isolation(ctx):
+    """Isolation at the Config level: what `run_tests` does for every test function -- layer a function_annotation config on the
+    contract config (with_overrides / with_devdoc), read its options, drop it -- repeated with different option values.  Every
+    read through attribute access must equal what the layers say (`value_with_source`, and the overrides themselves), however
+    many configs were created and freed before and whatever addresses CPython hands out again (bounded: the rounds continue
+    until an address has been reused several times)."""
+    import gc
+    import shlex
+
+    import halmos.__main__ as hm
+    import halmos.config as hc
+    from dataclasses import fields
+
+    names = [f.name for f in fields(hc.Config) if not f.metadata.get(hc.internal)]
+    base = hc.default_config().with_overrides(hc.ConfigSource.command_line, solver_timeout_branching=0.0, no_status=True)
+    rounds = ctx.scale(200, 1000)
+    seen_addr = {}
+    reused = 0
+    bad = 0
+    for r in range(rounds):
+        k = ctx.rng.randrange(1 << 30)
+        style = r % 4
+        want = {"loop": 3 + (r * 7 + k) % 50, "depth": 1000 + r, "width": 10 + (k % 97)}
+        if style == 0:
+            cfg = base.with_overrides(hc.ConfigSource.function_annotation, **want)
+        elif style == 1:
+            # the real with_devdoc on an artifact carrying `@custom:halmos --loop N --depth D --width W`
+            dd = f"--loop {want['loop']} --depth {want['depth']} --width {want['width']}"
+            cj = {"metadata": {"output": {"devdoc": {"methods": {"check_t()": {"custom:halmos": dd}}}}}}
+            cfg = hm.with_devdoc(base, "check_t()", cj)
+        elif style == 2:
+            # contract annotation below, function annotation on top (both die together)
+            want2 = {"invariant_depth": 2 + r % 9, "solver_timeout_assertion": float(r + 1)}
+            mid = hm.with_natspec(base, "K", {"text": f"@custom:halmos --invariant-depth {want2['invariant_depth']} "
+                                              f"--solver-timeout-assertion {r + 1}s"})
+            cfg = mid.with_overrides(hc.ConfigSource.function_annotation, **want)
+            want = dict(want, **want2)
+            del mid
+        else:
+            # only one option annotated: the others must come from the layers below, not from a dead config
+            want = {"loop": want["loop"]}
+            cfg = base.with_overrides(hc.ConfigSource.function_annotation, **want)
+        addr = id(cfg)
+        if addr in seen_addr:
+            reused += 1
+        first_use = seen_addr.setdefault(addr, r)
+        # reads in the order run_test / SEVM make them, then every option
+        order = ["loop", "depth", "width", "invariant_depth", "solver_timeout_assertion", "solver_timeout_branching"] + names
+        for n in order:
+            got = getattr(cfg, n)
+            exp = cfg.value_with_source(n)[0]
+            if n in want and exp != want[n]:
+                raise RuntimeError(f"harness: value_with_source({n}) = {exp!r}, overrides say {want[n]!r}")
+            same = (got == exp and type(got) is type(exp)) or (got is exp)
+            if not same:
+                bad += 1
+                stale = addr in seen_addr and first_use != r
+                ctx.violation("config-isolation:option-read-differs-from-layers" + (":after-address-reuse" if stale else ""),
+                              f"round {r}: a fresh per-test config ({style=}) annotated with {want} reads {n} = {got!r}, its layers say "
+                              f"{exp!r}" + (f"; its address was used before by the config of round {first_use} (already freed)" if stale else ""),
+                              {"kind": "config-isolation", "rounds": r + 1})
+                break
+        ctx.case(f"config-isolation|{style}|{r}")
+        del cfg
+        if r % 3 != 2:
+            gc.collect()
+        if bad >= 3 or (reused >= 25 and r >= 60 and ctx.tier == "quick"):
+            break
+    ctx.count("config-isolation:rounds", r + 1)
+    ctx.count("config-isolation:address-reused", reused)
+    if not reused:
+        ctx.note("config-isolation: no Config address was reused within the bound (the live-object cache of this halmos keeps them alive)")
+
+
+def annotation_contract(seed, name="AnnIso"):
+    """one contract, four loop tests whose verdict / path count / loop-bound cuts depend on their own `@custom:halmos --loop N`
+    (and, for two of them, on a contract-level `--loop` they override)"""
+    from vlib.artifacts import Fn, TestContract
+    from vlib.e2e import Arg, Bin, Const, LoopCheck, Param
+
+    rng = random.Random(seed)
+    combos = [(3, 6), (5, 2), (2, 3), (5, 5), (1, 1), (3, 2), (6, 7), (2, 1)]
+    rng.shuffle(combos)
+    checks = []
+    for i, (k, bound) in enumerate(combos[:4]):
+        shape = rng.choice(["while", "dowhile"])
+        atoms = [Bin("EQ", Bin("AND", Arg(0), Const(7)), Const(k))]
+        checks.append(LoopCheck(f"check_{i}_ann", [Param("uint256", "n")], atoms, "panic", 1, True, [k], None, "and",
+                                f"loop:{shape}:{'within' if k <= bound else 'beyond'}-bound", True, [], f"--loop {bound}", shape, k, 7, bound))
+    fns = [Fn("setUp()", ["STOP"])] + [Fn(c.named, c.body(), devdoc=c.devdoc) for c in checks]
+    return TestContract(name, fns, natspec="@custom:halmos --loop 4"), checks
+
+
+def check_annotation_isolation(ctx, seed):
+    """annotation isolation through the real run_contract / run_tests: every test carries its own `--loop N`; in whatever order
+    and however often the tests run in one process, each one's (verdict, paths, loop-bound cuts, warnings) equals the test run
+    alone, and the effective bound is the test's own annotation (observed through SEVM's config)."""
+    import halmos.sevm as hs
+
+    desc, checks = annotation_contract(seed)
+    names = [c.canon for c in checks]
+    own = {c.canon: c.loop_bound for c in checks}
+    replay = {"kind": "annotation-isolation", "seed": seed}
+    seen_bounds = []
+    orig_init = hs.SEVM.__init__
+
+    def spy_init(self, options, fun_info, *a, **k):
+        orig_init(self, options, fun_info, *a, **k)
+        with contextlib.suppress(Exception):
+            seen_bounds.append((fun_info.sig, options.loop, options.value_with_source("loop")[0]))
+
+    def normed(run):
+        return {r.name: norm_result(r, run, False, with_values=False) for r in run.results}
+
+    def observe(label, run_fn):
+        seen_bounds.clear()
+        hs.SEVM.__init__ = spy_init
+        try:
+            run = run_fn()
+        finally:
+            hs.SEVM.__init__ = orig_init
+        for sig, got, layers in seen_bounds:
+            if sig in own and (got != own[sig] or layers != own[sig]):
+                ctx.violation("annotation-isolation:foreign-loop-bound",
+                              f"{label}: {sig} is annotated `--loop {own[sig]}` but its SEVM was built with options.loop = {got!r} "
+                              f"(its config layers say {layers!r})", replay)
+        return run
+
+    # each test alone first (baseline), before anything else of this contract ran
+    base = {}
+    for i, t in enumerate(names):
+        rx = re.escape(checks[i].name) + r"\("
+        run = observe(f"{t} alone", lambda rx=rx: run_cfg(desc, [], match_test=f"^({rx})"))
+        base.update(normed(run))
+    for t in names:
+        ctx.count(f"annotation-isolation:verdict:{base[t]['exitcode']}:loops={base[t]['loops']}")
+    if len({(base[t]["exitcode"], base[t]["paths"], base[t]["loops"]) for t in names}) < 2:
+        raise RuntimeError(f"annotation family is vacuous: all tests behave alike {base}")
+    orders = list(itertools.permutations(range(len(names))))
+    ctx.rng.shuffle(orders)
+    for order in orders[: ctx.scale(5, 24)]:
+        d2 = reorder(desc, order)
+        for rep in range(2):
+            with (no_singleton_reset() if rep else contextlib.nullcontext()):
+                run = observe(f"order {order} rep {rep}", lambda d2=d2: run_cfg(d2, []))
+            ctx.case(f"annotation-isolation|{seed}|{order}|{rep}")
+            compare(ctx, "annotation-isolation:result-differs-from-test-alone", base, normed(run),
+                    f"AnnIso seed {seed} order {order} rep {rep}", dict(replay, order=list(order), rep=rep),
+                    rerun=lambda d2=d2: normed(run_cfg(d2, [])))
+
+
 def check_depth_warning(ctx):
     """the `--depth` warning is emitted through the unique-message filter: the second run of the same test in one process is silent"""
     from vlib import asm
@@ -1042,11 +1198,13 @@ def correspond(ctx):
     ctx.note(f"uid aliases patched: {names}")
     # fixed-cost parts first
     check_depth_warning(ctx)
+    check_config_isolation(ctx)
+    check_annotation_isolation(ctx, ctx.rng.randrange(1 << 40))
     check_path_branch_isolation(ctx)
     check_codehash_orders(ctx)
     check_sign_orders(ctx)
     check_core_isolation(ctx)
-    check_siblings(ctx, ctx.scale(300, 1500))
+    check_siblings(ctx, ctx.scale(240, 1500))
     from props import c15
 
     specs = []
@@ -1104,6 +1262,10 @@ def replay(ctx, data) -> bool:
         check_cache_orders(ctx, d["seed"], d.get("threads"))
     elif d.get("kind") == "depth-warning":
         check_depth_warning(ctx)
+    elif d.get("kind") == "config-isolation":
+        check_config_isolation(ctx)
+    elif d.get("kind") == "annotation-isolation":
+        check_annotation_isolation(ctx, d.get("seed", 0))
     elif d.get("kind") == "sibling":
         from vlib import evmdiff
         from vlib.evmdiff import Scenario
